@@ -61,8 +61,14 @@ def gen_kinds(rng):
         return "n" + l1, "n" + rng.choice([l1, l1.swapcase(), l1.lower(), l2])
     if r < 0.3:
         return rng.choice(["n", "d"]) + l1, rng.choice(["n", "d"]) + rng.choice([l1, l1.swapcase(), l2])
-    if r < 0.42:
+    if r < 0.36:
         return "w" + rng.choice(["q", "zz", "Q"]), rng.choice(["w", "w", "n", "x"]) + rng.choice(["q", "zz", "other", "a"])
+    if r < 0.42:
+        # every way an answer can be synthesized from a wildcard (A found, ANY, no data, CNAME): same wildcard = same
+        # stream whatever the QNAME and QTYPE; another wildcard / the plain name = another stream
+        a = rng.choice(["w", "y", "z", "c"]) + rng.choice(["q", "zz", "Q"])
+        b = rng.choice(["w", "y", "y", "z", "c", "c", "n"]) + rng.choice(["q", "zz", "other", "a"])
+        return (a, b) if rng.random() < 0.5 else (b, a)
     if r < 0.54:
         return "x" + l1, rng.choice(["x", "x", "r", "n"]) + l2
     if r < 0.60:
@@ -77,7 +83,7 @@ def gen_kinds(rng):
     if r < 0.9:
         k = rng.choice(["n" + l1, "x" + l1, "f"])
         return rng.choice([("o" + l1, k), (k, "o" + l1), ("m", k), (k, "m"), ("o" + l1, "o" + l1), ("m", "m")])
-    ks = ["n" + l1, "d" + l1, "w" + l1, "x" + l1, "r" + l1, "f", "o" + l1, "m"]
+    ks = ["n" + l1, "d" + l1, "w" + l1, "y" + l1, "z" + l1, "c" + l1, "x" + l1, "r" + l1, "f", "o" + l1, "m"]
     return rng.choice(ks), rng.choice(ks)
 
 
